@@ -126,6 +126,39 @@ def gen_filler(rng, univ, first_cell, first_surf, centre, scale):
     return cells, surfs
 
 
+def gen_nested_lattice(rng, univ, first_cell, first_surf, centre, scale):
+    '''Universe `univ` = a 1-D LAT=1 cell along a coordinate axis (array fill
+    with its own universe, an inner filler universe and 0), nested inside the
+    elements of the outer lattice.'''
+    axis = rng.randrange(3)
+    pitch = rng.choice([0.4, 0.5, 0.75]) * scale
+    c_ax = centre[axis] + rng.choice([0.0, 0.1, -0.2]) * scale
+    far = {'id': first_surf, 'mn': 'p' + 'xyz'[axis],
+           'params': [float(c_ax + pitch / 2)], 'tr': None, 'bc': ''}
+    near = {'id': first_surf + 1, 'mn': 'p' + 'xyz'[axis],
+            'params': [float(c_ax - pitch / 2)], 'tr': None, 'bc': ''}
+    far_first = rng.random() < 0.5
+    pair = [far, near] if far_first else [near, far]
+    lat_centre = list(centre)
+    lat_centre[axis] = c_ax
+    lits = [literal(s, lat_centre) for s in pair]
+    vec = [0.0, 0.0, 0.0]
+    vec[axis] = pitch if far_first else -pitch
+    n = rng.choice([2, 3])
+    lo = rng.choice([-1, 0, -2])
+    inner = univ + 10
+    array = [rng.choice([univ, inner, inner, 0]) for _ in range(n)]
+    cell = {'id': first_cell, 'mat': first_cell, 'rho': '-1.0',
+            'expr': deckmod.leaf_expr(lits), 'imp': {'n': 1}, 'u': univ,
+            'lat': 1,
+            'fill': {'ranges': [(lo, lo + n - 1), (0, 0), (0, 0)],
+                     'array': array, 'tr': None},
+            'trcl': None, 'lat_vectors': [vec], 'lat_centre': lat_centre}
+    cells, surfs = gen_filler(rng, inner, first_cell + 4, first_surf + 4,
+                              lat_centre, pitch)
+    return [cell] + cells, [far, near] + surfs
+
+
 def gen_ranges(rng, d):
     out = []
     for _ in range(d):
@@ -275,8 +308,14 @@ def gen_deck(rng, force=None):
     surfaces.append({'id': 9, 'mn': 'so', 'params': [radius + 1.0],
                      'tr': None, 'bc': ''})
     next_cell, next_surf = 11, 41
+    nested = bool(force.get('nested', rng.random() < 0.15))
     for univ in fillers:
-        fc, fs = gen_filler(rng, univ, next_cell, next_surf, centre, scale)
+        if nested and univ == fillers[-1]:
+            fc, fs = gen_nested_lattice(rng, univ, next_cell, next_surf,
+                                        centre, scale)
+        else:
+            fc, fs = gen_filler(rng, univ, next_cell, next_surf, centre,
+                                scale)
         cells.extend(fc)
         surfaces.extend(fs)
         next_cell += 10
@@ -305,7 +344,7 @@ def gen_deck(rng, force=None):
             'fill_tr': fill_tr is not None,
             'fill_rot': fill_tr is not None and fill_tr['B'] is not None,
             'lat_trcl': lat_trcl is not None, 'cont_tr': cont_tr is not None,
-            'degenerate_low_dim': degenerate_low_dim,
+            'degenerate_low_dim': degenerate_low_dim, 'nested': nested,
             'n_elements': len(array) if not homogeneous else
             int(np.prod([hi - lo + 1 for lo, hi in ranges]))}
     return deck, meta
